@@ -16,7 +16,7 @@ from . import scalar as _sc
 
 class _NdMeta(type):
     def __instancecheck__(cls, obj):
-        return type.__instancecheck__(cls, obj) or isinstance(obj, _np.ndarray)
+        return type.__instancecheck__(cls, obj) or isinstance(obj, _np.ndarray) or type(obj).__name__ == 'NDArray'
 
 
 class ndarray(metaclass=_NdMeta):
@@ -275,7 +275,7 @@ def _sqrt(x):
 
 
 def _prod(x, *a, **k):
-    if isinstance(x, (list, tuple)) and any(isinstance(v, (SymInt, Z)) for v in x):
+    if isinstance(x, (list, tuple)) and any(isinstance(v, (SymInt, Z)) or type(v).__name__ == 'P' for v in x):
         r = 1
         for v in x:
             r = r * v
@@ -306,7 +306,7 @@ def _array(x, *a, **k):
 
 
 def _isscalar(x):
-    if isinstance(x, (Z, C, SymInt)):
+    if isinstance(x, (Z, C, SymInt)) or type(x).__name__ == 'P':
         return True
     return _np.isscalar(x)
 
